@@ -295,6 +295,8 @@ func main() {
 		e1aborts(pos[1], pos[2])
 	case "e1loops":
 		e1loops(pos[1], pos[2])
+	case "e1paramaborts":
+		e1paramaborts(pos[1])
 	case "e1events":
 		e1events(pos[1], pos[2])
 	case "callees":
